@@ -66,7 +66,7 @@ Ref(cfg) ==
             \* e also merges c's {c: v ++ c}; a consumer renders its merged input "k=v,..." (keys sorted) under its own key
             [] cfg.shape = "fofi" -> {<<N[4].n, Rendered(N[2].n, v \o M(2), v, M(1)) \o M(4)>>, <<N[5].n, Rendered(N[3].n, v \o M(3), v, M(1)) \o M(5)>>}
             [] cfg.shape = "branch" -> Str(v \o M(1) \o Mark(NodeByName(cfg, cfg.pick)))
-            [] cfg.shape = "keys" -> {<<"out", v \o Cat([i \in 1..Len(N) |-> M(i)])>>}
+            [] cfg.shape \in {"keys", "keypt"} -> {<<"out", v \o Cat([i \in 1..Len(N) |-> M(i)])>>}
 
 (* observed result of one paradigm: [kind, chunks]; a chunk is a sequence of [k, v] *)
 Keys(chunks) == UNION {{e.k : e \in Range(chunks[i])} : i \in 1..Len(chunks)}
